@@ -672,10 +672,12 @@ class C20(Check):
         resp = build_resp(w['resp'])
         text = w['text']
         arg = text.encode('latin-1') if (text is not None and w.get('bytes')) else text
+        shown = None
         try:
             i = E.getEncodingInfo(resp, arg, log=_silent)
             res = ('OK', i.encoding, bool(i.mismatch), i.http_media_type, i.http_encoding, i.meta_media_type,
                    i.meta_encoding, i.xml_encoding)
+            shown = str(i)
             if i.mismatch not in (True, False):
                 res = ('OK-badflag',) + res[1:]
         except Exception as e:      # noqa: BLE001
@@ -728,12 +730,12 @@ class C20(Check):
             lines.append(('meta ' + enc_events(events)).rstrip())
             impls.append(opt(ctype))
         if res[0] == 'OK':
-            got = 'OK %s %d %s %s %s %s %s' % (opt(res[1]), res[2], opt(res[3]), opt(res[4]), opt(res[5]), opt(res[6]),
-                                               opt(res[7]))
+            got = 'OK %s %d %s %s %s %s %s %s' % (opt(res[1]), res[2], opt(res[3]), opt(res[4]), opt(res[5]), opt(res[6]),
+                                                  opt(res[7]), enc(shown))
         else:
             got = 'ERR ' + res[1]
         return {'lines': lines, 'impl': [got] + impls, 'res': res, 'eff': eff, 'meta_raw': mr, 'mt': mt, 'cs': cs,
-                'events': events, 'ctype': ctype, 'hexc': hexc, 'twin': twin}
+                'events': events, 'ctype': ctype, 'hexc': hexc, 'twin': twin, 'shown': shown}
 
     # ------------------------------------------------------------------------------------------------
     def judge(self, ctx, E, w, pl, model):
@@ -873,6 +875,8 @@ class C20(Check):
             return
         _, encoding, mismatch, http_mt, http_enc, meta_mt, meta_enc, xml_enc = res
         # clauses that need no knowledge of the document
+        if pl.get('shown') is not None and pl['shown'] != (encoding or ''):
+            ctx.violate('str(info) is the reported encoding or the empty string', w, {'str': pl['shown'], 'encoding': encoding})
         if isinstance(encoding, str) and encoding != encoding.lower():
             ctx.violate('the reported encoding is lower-case', w, {'impl': encoding})
         if mismatch != S.known3(http_enc, xml_enc, meta_enc):
